@@ -103,9 +103,9 @@ func c11Sibling(p *chk.Prog, r *chk.Report) {
 			stmt   func(ast.Node) bool
 			except chk.Guard
 		}{
-			{"tenant", as.IsAssignPat("RECV.servicesOnIP[IP.String()][S]", "true", chk.H("IP", ip), chk.H("S", svc)), nil},
-			{"sharing-key", as.IsAssignPat("RECV.sharingKeyForIP[IP.String()]", "&AL.key", chk.H("IP", ip), chk.H("AL", al)), nil},
-			{"in-use", isIncDec(as, "RECV.poolIPsInUse[AL.pool][IP.String()]", token.INC, chk.H("IP", ip), chk.H("AL", al)), nil},
+			{"tenant", as.IsAssignPat("RECV.servicesOnIP[IP.String()][S]", "true", chk.H("IP", ip), chk.H("S", svc)), chk.NoGuard},
+			{"sharing-key", as.IsAssignPat("RECV.sharingKeyForIP[IP.String()]", "&AL.key", chk.H("IP", ip), chk.H("AL", al)), chk.NoGuard},
+			{"in-use", isIncDec(as, "RECV.poolIPsInUse[AL.pool][IP.String()]", token.INC, chk.H("IP", ip), chk.H("AL", al)), chk.NoGuard},
 			{"in-use-v6", isIncDec(as, "RECV.poolIPV6InUse[AL.pool][IP.String()]", token.INC, chk.H("IP", ip), chk.H("AL", al)), v4},
 			{"in-use-v4", isIncDec(as, "RECV.poolIPV4InUse[AL.pool][IP.String()]", token.INC, chk.H("IP", ip), chk.H("AL", al)), v6},
 		}
@@ -146,8 +146,8 @@ func c11Sibling(p *chk.Prog, r *chk.Report) {
 		stmt   func(ast.Node) bool
 		except chk.Guard
 	}{
-		{"tenant", un.ContainsPat("delete(RECV.servicesOnIP[IP.String()], S)", chk.H("IP", ip), chk.H("S", usvc)), nil},
-		{"in-use", isIncDec(un, "RECV.poolIPsInUse[AL.pool][IP.String()]", token.DEC, chk.H("IP", ip), chk.H("AL", ual)), nil},
+		{"tenant", un.ContainsPat("delete(RECV.servicesOnIP[IP.String()], S)", chk.H("IP", ip), chk.H("S", usvc)), chk.NoGuard},
+		{"in-use", isIncDec(un, "RECV.poolIPsInUse[AL.pool][IP.String()]", token.DEC, chk.H("IP", ip), chk.H("AL", ual)), chk.NoGuard},
 		{"in-use-v6", isIncDec(un, "RECV.poolIPV6InUse[AL.pool][IP.String()]", token.DEC, chk.H("IP", ip), chk.H("AL", ual)), v4},
 		{"in-use-v4", isIncDec(un, "RECV.poolIPV4InUse[AL.pool][IP.String()]", token.DEC, chk.H("IP", ip), chk.H("AL", ual)), v6},
 	}
@@ -179,7 +179,7 @@ func c11Sibling(p *chk.Prog, r *chk.Report) {
 			w := ug.BranchAlways(es[0], un.ContainsPat("delete(RECV."+m+"[AL.pool], IP.String())", chk.H("IP", ip), chk.H("AL", ual)))
 			ok = !w.Found
 			cond := es[0].B.Nodes[len(es[0].B.Nodes)-1]
-			ok = ok && !loopSkipsWithout(ug, rs, func(n ast.Node) bool { return n == cond }, nil)
+			ok = ok && !loopSkipsWithout(ug, rs, func(n ast.Node) bool { return n == cond }, chk.NoGuard)
 			// after the decrements
 			for _, s := range ug.Find(isIncDec(un, "RECV."+m+"[AL.pool][IP.String()]", token.DEC)) {
 				if (&chk.Walk{G: ug, From: chk.Site{G: ug, B: es[0].B, I: len(es[0].B.Nodes) - 1}, Inclusive: true,
